@@ -71,6 +71,7 @@ struct MNode {
   node *p = 0;
   bool live = false;
   bool named = false;
+  bool binary = false;  // named by non-printable identifier data (charset 0, length > 0): `name` holds the bytes, named stays false
   std::string name;
   int vkind = 0;  // 0 none, 1 counting, 2 text
   CountMeta *cm = 0;
@@ -116,9 +117,9 @@ struct Model {
   }
   void detach(int s) { removeFromList(s); tops.push_back({s}); }
   std::vector<int> liveSlots() const { std::vector<int> v; for (size_t i = 0; i < n.size(); i++) if (n[i].live) v.push_back((int)i); return v; }
-  std::string key(int s) const { return n[s].named ? "=" + n[s].name : std::string("-"); }
+  std::string key(int s) const { return n[s].named ? "=" + n[s].name : n[s].binary ? "#" + n[s].name : std::string("-"); }
   std::string show(int s) const {
-    std::string r = std::to_string(s) + "(" + (n[s].named ? (n[s].name.size() > 6 ? n[s].name.substr(0, 4) + ".." + std::to_string(n[s].name.size()) : n[s].name) : std::string("-")) + ")";
+    std::string r = std::to_string(s) + "(" + (n[s].named ? (n[s].name.size() > 6 ? n[s].name.substr(0, 4) + ".." + std::to_string(n[s].name.size()) : n[s].name) : n[s].binary ? "#" + std::to_string(n[s].name.size()) : std::string("-")) + ")";
     if (!n[s].kids.empty()) { r += "{"; for (size_t i = 0; i < n[s].kids.size(); i++) r += (i ? " " : "") + show(n[s].kids[i]); r += "}"; }
     return r;
   }
@@ -262,7 +263,9 @@ static void check_payload(Ctx &c, World &w, const char *op) {
   for (int s : w.m.liveSlots()) {
     const MNode &mn = w.m.n[s];
     const char *id = mpt_node_ident(mn.p);
-    if (!mn.named) VP_CHECK(c, id == 0 && mn.p->ident._len == 0, tagAt("name", op).c_str(), "after %s: unnamed node %d has a name of length %u", op, s, (unsigned)mn.p->ident._len);
+    if (mn.binary) VP_CHECK(c, id == 0 && mn.p->ident._charset == 0 && mn.p->ident._len == mn.name.size() && !memcmp(mpt_identifier_data(&mn.p->ident), mn.name.data(), mn.name.size()), tagAt("name", op).c_str(),
+                            "after %s: node %d no longer carries its binary name of %zu bytes (charset %u, length %u)", op, s, mn.name.size(), (unsigned)mn.p->ident._charset, (unsigned)mn.p->ident._len);
+    else if (!mn.named) VP_CHECK(c, id == 0 && mn.p->ident._len == 0, tagAt("name", op).c_str(), "after %s: unnamed node %d has a name of length %u", op, s, (unsigned)mn.p->ident._len);
     else VP_CHECK(c, id && mn.name == id && mn.p->ident._len == mn.name.size() + 1, tagAt("name", op).c_str(), "after %s: node %d is named '%.40s' (len %u), expected '%.40s'", op, s, id ? id : "(null)", (unsigned)mn.p->ident._len, mn.name.c_str());
     VP_CHECK(c, (metatype *)mn.p->_meta == mn.mt, tagAt("value", op).c_str(), "after %s: node %d holds another value object than the one it was given", op, s);
     if (mn.vkind == 1) VP_CHECK(c, mn.cm->released == 0, tagAt("value-released", op).c_str(), "after %s: value of live node %d was released %d time(s)", op, s, mn.cm->released);
@@ -301,32 +304,49 @@ static void settle(Ctx &c, World &w, Model &E, const std::set<int> &W, const std
 // ---------------------------------------------------------------------------------------------------------------
 static int pickOf(Ctx &c, const std::vector<int> &v) { return v[c.pick(v.size())]; }
 
-static std::string drawName(Ctx &c, bool &named, bool &fit) {
+// A share of the names is binary identifier data (mpt_identifier_set(id, NULL, len) + filling the bytes: charset 0,
+// length > 0), decided by what is drawn anyway: two equal letters -> 3 bytes (inline), the long-name lengths 21/24/85/300
+// -> that many bytes (allocated, or inline in a fitted node).
+static std::string binaryBytes(size_t len, unsigned salt) {
+  std::string b(len, '\0');
+  for (size_t i = 0; i < len; i++) b[i] = (char)((i * 37 + salt * 11 + (i % 5 == 2 ? 0 : 1 + i / 3)) & 0xff);
+  if (len > 1) b[1] = 0;  // a zero inside: not a C string
+  return b;
+}
+static std::string drawName(Ctx &c, bool &named, bool &fit, bool &binary) {
   static const char A[] = "abc";
   named = true;
+  binary = false;
   fit = c.flip();  // mpt_node_new(len + 1) like mpt_node_append, or default-size node
   switch (c.weighted({10, 3, 1, 1})) {
     case 0: return std::string(1, A[c.pick(3)]);
-    case 1: { std::string s; s += A[c.pick(3)]; s += A[c.pick(3)]; return s; }
+    case 1: { std::string s; s += A[c.pick(3)]; s += A[c.pick(3)]; if (s[0] == s[1]) { named = false; binary = true; c.label("name:binary"); return binaryBytes(3, (unsigned)s[0]); } return s; }
     case 2: named = false; return "";
     default: {
       size_t len = c.choose<size_t>({18, 19, 20, 21, 23, 24, 60, 83, 84, 85, 250, 300});
       c.label("name:long");
-      return std::string(len, A[c.pick(3)]);
+      size_t letter = c.pick(3);
+      if (len == 21 || len == 24 || len == 85 || len == 300) { named = false; binary = true; c.label("name:binary"); return binaryBytes(len, (unsigned)letter); }
+      return std::string(len, A[letter]);
     }
   }
 }
 
 static int newNode(Ctx &c, World &w) {
-  bool named, fit;
-  std::string name = drawName(c, named, fit);
-  node *p = mpt_node_new(named && fit ? name.size() + 1 : 0);
+  bool named, fit, binary;
+  std::string name = drawName(c, named, fit, binary);
+  node *p = mpt_node_new(named && fit ? name.size() + 1 : binary && fit ? name.size() : 0);
   VP_CHECK(c, p, "new-null", "mpt_node_new returned NULL");
   VP_CHECK(c, !p->next && !p->prev && !p->parent && !p->children && !p->_meta, "new-links", "fresh node has links set");
   w.ever.push_back(p);
   if (named) VP_CHECK(c, mpt_identifier_set(&p->ident, name.c_str(), (int)name.size()), "new-name", "mpt_identifier_set refused a name of %zu bytes", name.size());
   MNode mn;
-  mn.p = p; mn.live = true; mn.named = named; mn.name = name;
+  if (binary) {
+    void *d = mpt_identifier_set(&p->ident, 0, (int)name.size());
+    VP_CHECK(c, d, "new-name", "mpt_identifier_set refused %zu bytes of non-printable identifier data", name.size());
+    memcpy(d, name.data(), name.size());
+  }
+  mn.p = p; mn.live = true; mn.named = named; mn.binary = binary; mn.name = name;
   switch (c.weighted({3, 8, 1, 4})) {
     case 0: break;
     case 1: mn.vkind = 1; mn.cm = w.newMeta((int)c.range(0, 3), true, 0); break;
@@ -350,7 +370,7 @@ static int newNode(Ctx &c, World &w) {
   w.m.n.push_back(mn);
   w.m.tops.push_back({s});
   w.created++;
-  if (c.verbose()) c.logf("  new -> node %d name=%s value=%s", s, named ? (name.size() > 8 ? fmtstr("%c x %zu", name[0], name.size()).c_str() : name.c_str()) : "(none)",
+  if (c.verbose()) c.logf("  new -> node %d name=%s value=%s", s, named ? (name.size() > 8 ? fmtstr("%c x %zu", name[0], name.size()).c_str() : name.c_str()) : binary ? fmtstr("(binary, %zu bytes)", name.size()).c_str() : "(none)",
          mn.vkind == 0 ? "none" : mn.vkind == 1 ? fmtstr("count#%d payload %d%s", mn.cm->serial, mn.cm->payload, mn.cm->clonable ? "" : " unclonable").c_str() : fmtstr("text[%zu]", mn.text.size()).c_str());
   return s;
 }
@@ -442,9 +462,13 @@ static int adoptClone(Ctx &c, World &w, Model &E, node *q, int src, bool deep, n
   VP_CHECK(c, q->prev == expPrev, tl.c_str(), "%s: clone of node %d has a wrong prev link", op, src);
   const MNode &sn = E.n[src];
   MNode mn;
-  mn.p = q; mn.live = true; mn.named = sn.named; mn.name = sn.name;
+  mn.p = q; mn.live = true; mn.named = sn.named; mn.binary = sn.binary; mn.name = sn.name;
   const char *id = mpt_node_ident(q);
-  if (!sn.named) VP_CHECK(c, !id && q->ident._len == 0, tc.c_str(), "%s: clone of unnamed node %d has a name", op, src);
+  VP_CHECK(c, mpt_identifier_inequal(&q->ident, &sn.p->ident) == 0, tc.c_str(), "%s: mpt_identifier_inequal says the clone of node %d is named differently from its source (charset %u/%u, length %u/%u)", op, src,
+           (unsigned)q->ident._charset, (unsigned)sn.p->ident._charset, (unsigned)q->ident._len, (unsigned)sn.p->ident._len);
+  if (sn.binary) VP_CHECK(c, !id && q->ident._charset == 0 && q->ident._len == sn.name.size() && !memcmp(mpt_identifier_data(&q->ident), sn.name.data(), sn.name.size()), tc.c_str(),
+                          "%s: clone of node %d does not carry the %zu bytes of binary name of its source (charset %u, length %u)", op, src, sn.name.size(), (unsigned)q->ident._charset, (unsigned)q->ident._len);
+  else if (!sn.named) VP_CHECK(c, !id && q->ident._len == 0, tc.c_str(), "%s: clone of unnamed node %d has a name", op, src);
   else VP_CHECK(c, id && sn.name == id, tc.c_str(), "%s: clone of node %d is named '%.40s', source '%.40s'", op, src, id ? id : "(null)", sn.name.c_str());
   if (sn.vkind == 0) VP_CHECK(c, !q->_meta, tc.c_str(), "%s: clone of value-less node %d has a value", op, src);
   else if (sn.vkind == 1) {
@@ -1012,7 +1036,54 @@ static void run(Ctx &c) {
     E = m;
     std::vector<int> owners2;
     for (int s : live) if (!m.n[s].kids.empty()) owners2.push_back(s);
-    switch (c.weighted({3, 2, 3})) {
+    // (appended weight: draws below 8 keep their meaning)
+    switch (c.weighted({3, 2, 3, 3})) {
+      case 3: {  // mpt_parse_config with a handler that hands every element to mpt_node_append, started the way mpt_parse_node
+                 // seeds its context (current node = target, previous operation = section start): the elements go behind the
+                 // children the target has
+        int T = (!owners2.empty() && c.chance(200)) ? pickOf(c, owners2) : pickOf(c, live);
+        std::vector<std::string> names = {"a", "b", "c", "ab", "d"};
+        std::string text;
+        std::vector<PNode> tree;
+        if (c.chance(40)) { text = c.choose<const char *>({"", "\n", "# nothing\n", "  \n# a = 1\n\n"}); c.label("append:no-elements"); }
+        else { tree = drawPTree(c, names, 0, 4); renderPTree(c, tree, text, 0); }
+        size_t fresh = pcount(tree);
+        if (live.size() + fresh > MaxLive) { c.label("skip:parse-too-big"); break; }
+        if (c.verbose()) { std::string shown = text; for (auto &ch : shown) if (ch == '\n') ch = '|'; c.logf("  parse_config + node_append(target=%d) text \"%s\" (%zu elements)", T, shown.c_str(), fresh); }
+        struct Handler {
+          static int save(void *ctx, const path *p, const value *val, int last, int curr) {
+            node **pos = (node **)ctx, *next = mpt_node_append(*pos, p, val, last, curr);
+            if (!next) return BadOperation;
+            *pos = next;
+            return 0;
+          }
+        };
+        CObj<parser_format> pf;
+        input_parser_t fn = mpt_parse_next_fcn(mpt_parse_format(pf, 0));
+        VP_CHECK(c, fn != 0, "harness-parser", "no parser for the default format");
+        TextSource src;
+        src.text = text;
+        CObj<parser_context> pc;
+        pc->src.getc = TextSource::getc;
+        pc->src.arg = &src;
+        pc->src.line = 1;
+        pc->name.sect = 0xff;
+        pc->name.opt = 0xff;
+        pc->prev = parser_context::Section;
+        node *pos = m.n[T].p;
+        int r = mpt_parse_config(fn, pf.get(), pc, Handler::save, &pos);
+        VP_CHECK(c, r >= 0, "parse-refused", "mpt_parse_config with the mpt_node_append handler refused a well-formed text (%d, line %zu)", r, (size_t)pc->src.line);
+        std::set<const node *> old;
+        for (int s : live) old.insert(m.n[s].p);
+        bool hadKids = !m.n[T].kids.empty();
+        std::vector<int> kids = addParsed(E, tree, T);
+        for (int k : kids) E.n[T].kids.push_back(k);
+        bindParsed(c, w, E, T, m.n[T].p->children, old);
+        settle(c, w, E, none, nobody, "node_append");
+        c.label("op:node_append");
+        if (fresh && hadKids) { c.label("append:into-populated"); nt = true; }
+        break;
+      }
       case 0: {  // mpt_node_parse: replaces the children of the node by what the text describes
         int R = (!owners2.empty() && c.chance(200)) ? pickOf(c, owners2) : pickOf(c, live);
         std::vector<std::string> names = {"a", "b", "c", "ab", "d"};
